@@ -97,6 +97,9 @@ func seqVerify(ctx *pbt.Ctx, when string, i int, op SeqOp, h seqHeld) error {
 			return fmt.Errorf("%s: EncodeBIP276 wrote into the spare capacity behind the payload slice it was given (%x)", at, []byte(op.Data))
 		}
 		want := ref.EncodeBIP276(ref.BIP276{Prefix: op.Prefix, Version: op.Version, Network: op.Network, Data: op.Data})
+		if h.enc == "ERROR" && op.Prefix != bscript.PrefixScript && op.Prefix != bscript.PrefixTemplate {
+			return nil // the encoder refuses a prefix outside the quantified ones: nothing to judge
+		}
 		if h.enc != want {
 			swapped := ref.EncodeBIP276(ref.BIP276{Prefix: op.Prefix, Version: op.Network, Network: op.Version, Data: op.Data})
 			if op.Version != op.Network && h.enc == swapped && ctx.Known("L25b") {
@@ -623,6 +626,13 @@ func checkPfx(ctx *pbt.Ctx, c Pfx) error {
 	text := ref.EncodeBIP276(ref.BIP276{Prefix: p, Version: c.Version, Network: c.Network, Data: c.Data})
 	if c.Via == "lib" {
 		lt := bscript.EncodeBIP276(bscript.BIP276{Prefix: p, Version: c.Version, Network: c.Network, Data: append([]byte{}, c.Data...)})
+		if lt == "ERROR" && p != bscript.PrefixScript && p != bscript.PrefixTemplate {
+			// the statement quantifies over the prefixes script / template; an encoder that REFUSES another
+			// prefix (benign change C17-b2-2: empty, or one its own decoder could never read back) has not
+			// produced a text, so there is no layout to judge
+			ctx.Label("encoder refuses a non-standard prefix")
+			return nil
+		}
 		if lt != text {
 			swapped := ref.EncodeBIP276(ref.BIP276{Prefix: p, Version: c.Network, Network: c.Version, Data: c.Data})
 			if !(c.Version != c.Network && lt == swapped && ctx.Known("L25b")) {
